@@ -97,7 +97,9 @@ unless it transfers control, advances `ip` over exactly the operand bytes -/
 def vmArmConsistent (row : Nat × List (Nat × Nat) × Nat × Nat) : Bool :=
   let (op, reads, adv, transfers) := row
   let ws := (widthsOf op).getD []
-  reads == layout ws && (transfers != 0 || adv == ws.sum)
+  -- an arm that transfers control either never falls through (`adv = 0`: Jump, Call, Return) or, on its
+  -- fall-through path, advances over exactly the operand bytes (the conditional jumps)
+  reads == layout ws && ((transfers != 0 && adv == 0) || adv == ws.sum)
 
 /-- operand `o` fits the declared width `w` -/
 def fits (w o : Nat) : Prop := o < 256 ^ w
